@@ -59,16 +59,16 @@ PLAN = {
                       "split point of files <= 2 KiB; fingerprint = API op/result sequence + I/O event sequence; non-trivial = at least "
                       "one transfer >= 8 bytes"),
                 exhaustive_subspaces=["c07split: every split point 1..len-1 of each generated file <= 2048 bytes"],
-                quick=[("c07", "release", 40000), ("c07split", "release", 400)],
-                thorough=[("c07", "release", 2000000), ("c07", "checked", 200000), ("c07split", "release", 20000)],
+                quick=[("c07", "release", 40000), ("c07split", "release", 400), ("c07gen", "release", 15000)],
+                thorough=[("c07", "release", 2000000), ("c07", "checked", 200000), ("c07split", "release", 20000), ("c07gen", "release", 800000), ("c07gen", "checked", 100000)],
                 assumptions=["PcmModel serialisations computed by the harness"]),
     "C06": dict(level="exploration",
                 rule=("as C07 but on seekable readers, with seeks mixed into the history (targets biased to frame boundaries +-1, "
                       "mid-frame, 0, end-1, end, end+1, far beyond, Current(+-k), End(-k), byte positions inside a PCM frame) over files "
                       "with every seek-table shape (none, every frame, sparse, per second, trailing placeholders inserted via "
                       "update_file) and streams after a junk prefix; oracle = std Cursor semantics over the PCM bytes / samples"),
-                quick=[("c06", "release", 40000)],
-                thorough=[("c06", "release", 2000000), ("c06", "checked", 200000)],
+                quick=[("c06", "release", 40000), ("c06gen", "release", 15000)],
+                thorough=[("c06", "release", 2000000), ("c06", "checked", 200000), ("c06gen", "release", 800000), ("c06gen", "checked", 100000)],
                 assumptions=["no assumption about the position after a failed seek (the history re-seeks)"]),
     "C08": dict(level="exploration",
                 rule=("each run fixes (signal, options), takes the one-call sample-writer encode on a perfect sink as golden, and "
@@ -261,6 +261,8 @@ EXPECT = {
   "trunc_on_frame_boundary"
  ],
  "C06": [
+  "rd_generator_made_file",
+  "rd_variable_block_size_stream",
   "c06_current_forward",
   "c06_current_negative",
   "c06_seek_after_eos",
@@ -278,6 +280,8 @@ EXPECT = {
   "c07_consume_partial"
  ],
  "C07": [
+  "rd_generator_made_file",
+  "rd_variable_block_size_stream",
   "c07_call_after_eos",
   "c07_consume_0",
   "c07_consume_all",
